@@ -68,6 +68,10 @@ CHECKS = {
  'C08': ('exploration', 'runtime monitor: metamorphic oracle (every respelling of one structured query must give the identical observation) + reference-model oracle for the canonical spelling and for literal opacity; known literal-token finding classified by mechanism (re-run with the token neutralised)',
          'Thousands of structured queries are rendered in random compositions of the spelling transformations, with literals drawn from every keyword and metacharacter, and all spellings are executed on the real engine and compared exactly; held on the spellings observed.',
          'Trusted: rv/model/qast.py respell() only applies transformations the statement lists; rv/model/refsem.py.', 'DESIGN.md#c08'),
+
+ 'C09': ('exploration', 'runtime monitor: unique-value position oracle (cell (r,c) = token r{r}c{c}, so a returned value identifies its column) over random hostile headers x every column x every spelling x sources {list, pandas, sqlite, CSV, CLI}; WITH-modifier matrix on CSV input and join files',
+         'For thousands of random headers every column is looked up in every spelling through every source kind, also as UPDATE target, EXCEPT column and JOIN key; the WITH (header|noheader) x caller flag x {input, join} matrix is enumerated completely; held on the headers observed.',
+         'Trusted: qast.lit as the way a user writes a name as a string literal; names with an a.ident / b.ident token are excluded as quantified.', 'DESIGN.md#c09'),
 }
 
 NOT_YET = 'check not registered yet (machinery under construction; see DESIGN.md section 3a build order)'
